@@ -135,7 +135,12 @@ func (r *Registry) addImport(ctx context.Context, pkg TypesPackage) *Package {
 	originalQualifier := imprt.Qualifier()
 	var aliasSuggestion string = imprt.Qualifier()
 	for i := 0; ; i++ {
-		if _, conflict := r.importQualifiers[aliasSuggestion]; conflict {
+		_, conflict := r.importQualifiers[aliasSuggestion]
+		// an in-package file also sees the package-level declarations of its package
+		if !conflict && r.inPackage && r.srcPkg != nil && r.srcPkg.Types != nil {
+			conflict = r.srcPkg.Types.Scope().Lookup(aliasSuggestion) != nil
+		}
+		if conflict {
 			aliasSuggestion = fmt.Sprintf("%s%d", imprt.Qualifier(), i)
 			continue
 		}
